@@ -246,7 +246,8 @@ def load_known_findings(pid):
         return {}
     with open(path) as f:
         data = json.load(f)
-    return {k["id"]: k for k in data.get("findings", []) if k.get("property") == pid and k.get("status") == "known"}
+    return {k["id"]: k for k in data.get("findings", [])
+            if (k.get("property") == pid or pid in k.get("also_affects", ())) and k.get("status") == "known"}
 
 
 class Timer:
